@@ -6,6 +6,7 @@
 #ifndef SYMENGINE_REAL_DOUBLE_H
 #define SYMENGINE_REAL_DOUBLE_H
 
+#include <cmath>
 #include <symengine/complex.h>
 #include <symengine/symengine_exception.h>
 
@@ -412,7 +413,8 @@ public:
      * */
     RCP<const Number> powreal(const RealDouble &other) const
     {
-        if (i < 0) {
+        // a negative base has a real power for every integral exponent
+        if (i < 0 and other.i != std::floor(other.i)) {
             return number(std::pow(std::complex<double>(i), other.i));
         }
         return make_rcp<const RealDouble>(std::pow(i, other.i));
@@ -439,7 +441,7 @@ public:
      * */
     RCP<const Number> rpowreal(const Integer &other) const
     {
-        if (other.is_negative()) {
+        if (other.is_negative() and i != std::floor(i)) {
             return number(std::pow(mp_get_d(other.as_integer_class()),
                                    std::complex<double>(i)));
         }
@@ -452,7 +454,7 @@ public:
      * */
     RCP<const Number> rpowreal(const Rational &other) const
     {
-        if (other.is_negative()) {
+        if (other.is_negative() and i != std::floor(i)) {
             return number(std::pow(mp_get_d(other.as_rational_class()),
                                    std::complex<double>(i)));
         }
